@@ -340,11 +340,13 @@ theorem warp_shift_current_3d {β : Type} (zero : β) (mode : Mode) (cs : CS3)
 
 /-! ### metadata -/
 
-/-- `CoordinateTransformation.__call__` labels the result with the destination dimensions and origin and
-keeps every other metadata entry of the source image. -/
-theorem coordtransf_meta (src : Meta) (d o : List Rat) :
+/-- (definitional: the model `correctMeta` / `coordTransfCall` IS this statement; its content is the exact tie of the model to
+`CoordinateTransformation.__call__` — driver op `ctmeta`, class / dimensions / origin / other entries of the result compared for
+different source and destination systems.) `CoordinateTransformation.__call__` labels the result with the destination
+dimensions and origin, keeps every other metadata entry and the class of the source image. -/
+theorem coordtransf_meta (src : Meta) (d o : List Rat) (kind : Nat) :
     (correctMeta src d o).dimensions = d ∧ (correctMeta src d o).origin = o ∧
-    (correctMeta src d o).other = src.other := ⟨rfl, rfl, rfl⟩
+    (correctMeta src d o).other = src.other ∧ (coordTransfCall kind src d o).1 = kind := ⟨rfl, rfl, rfl, rfl⟩
 
 /-! ### non-vacuity -/
 
@@ -643,5 +645,90 @@ theorem isometry_wrong_system_differs :
   decide +kernel
 
 end twosystems
+
+/-! ### round 3: source ≠ destination systems in all three modes; 3-D quarter turn in coordinate mode -/
+
+section anysystems
+
+/-- in voxel and voxel-centre mode the pull-back does not look at the coordinate systems at all (only the validity mask uses
+the SOURCE shape): any two pairs of systems give the same source voxel. -/
+theorem src_voxelmodes_indep_of_systems (mode : Mode) (hm : mode ≠ .coord) (T : Affine2 Rat) (csS csD csS' csD' : CS2)
+    (rnd : Rounding) (v0 v1 : Int) : src2 mode T csS csD rnd v0 v1 = src2 mode T csS' csD' rnd v0 v1 := by
+  cases mode
+  · exact absurd rfl hm
+  · rfl
+  · rfl
+
+/-- whole-voxel translation between ANY two systems (different shape, voxel size, origin) in voxel / voxel-centre mode:
+the source array shifted by k with zero fill, on the destination canvas. -/
+theorem warp_shift_anysystems_voxelmodes {β : Type} (zero : β) (rnd : Rounding) (mode : Mode) (hm : mode ≠ .coord)
+    (csS csD : CS2) (k0 k1 : Int) (arr : Int → Int → β) (v0 v1 : Int) (hv0 : 0 ≤ v0) (hv1 : 0 ≤ v1)
+    (hr : rnd = .floor ∨ mode ≠ .center) :
+    warp2 zero mode (Affine2.mk' ⟨(k0 : Rat), (k1 : Rat)⟩ 1 1 0) csS csD rnd arr v0 v1
+      = shift2 zero csS.n0 csS.n1 k0 k1 arr v0 v1 := by
+  have one : CS2 := ⟨1, 1, 0, 0, 1, 1⟩
+  have hs : src2 mode (Affine2.mk' ⟨(k0 : Rat), (k1 : Rat)⟩ 1 1 0) csS csD rnd v0 v1 = (v0 - k0, v1 - k1) := by
+    rw [src_voxelmodes_indep_of_systems mode hm _ csS csD ⟨1, 1, 0, 0, 1, 1⟩ ⟨1, 1, 0, 0, 1, 1⟩]
+    have := src_shift_2d rnd mode ⟨1, 1, 0, 0, 1, 1⟩ (by norm_num) (by norm_num) k0 k1 v0 v1 hv0 hv1 hr
+    cases mode
+    · exact absurd rfl hm
+    · simpa [shiftVec2] using this
+    · simpa [shiftVec2] using this
+  simp only [warp2, hs, CS2.valid, shift2, Bool.and_eq_true, decide_eq_true_eq, and_assoc]
+
+theorem floor_half_div (v : Int) (m : Nat) (hv : 0 ≤ v) (hm : 0 < m) :
+    (((v : Rat) + half) / (m : Rat)).floor = v / (m : Int) := by
+  have hmq : (0 : Rat) < (m : Rat) := by exact_mod_cast hm
+  have hdm : (m : Int) * (v / (m : Int)) + v % (m : Int) = v := Int.mul_ediv_add_emod v m
+  have hr0 := Int.emod_nonneg v (by omega : (m : Int) ≠ 0)
+  have hr1 := Int.emod_lt_of_pos v (by omega : (0 : Int) < m)
+  have hv' : (v : Rat) = (m : Rat) * ((v / (m : Int) : Int) : Rat) + ((v % (m : Int) : Int) : Rat) := by
+    exact_mod_cast hdm.symm
+  have hr0' : (0 : Rat) ≤ ((v % (m : Int) : Int) : Rat) := by exact_mod_cast hr0
+  have hr1' : ((v % (m : Int) : Int) : Rat) + 1 ≤ (m : Rat) := by exact_mod_cast hr1
+  apply Darsia.floor_eq_of_bounds
+  · rw [le_div_iff₀ hmq]; unfold half; nlinarith
+  · rw [div_lt_iff₀ hmq]; unfold half; nlinarith
+
+/-- coordinate mode onto a REFINED destination grid (same origin, destination voxel size = source voxel size / m per axis,
+any destination shape): translation by k source voxels; destination voxel v shows source voxel (v / m) − k. -/
+theorem src_shift_coord_refined (rnd : Rounding) (csS csD : CS2) (m0 m1 : Nat) (hm0 : 0 < m0) (hm1 : 0 < m1)
+    (h0 : csS.h0 ≠ 0) (h1 : csS.h1 ≠ 0) (hox : csD.ox = csS.ox) (hoy : csD.oy = csS.oy)
+    (hd0 : csD.h0 = csS.h0 / m0) (hd1 : csD.h1 = csS.h1 / m1) (k0 k1 v0 v1 : Int) (hv0 : 0 ≤ v0) (hv1 : 0 ≤ v1) :
+    src2 .coord (Affine2.mk' (shiftVec2 .coord csS k0 k1) 1 1 0) csS csD rnd v0 v1
+      = (v0 / (m0 : Int) - k0, v1 / (m1 : Int) - k1) := by
+  have hm0q : (m0 : Rat) ≠ 0 := by exact_mod_cast (by omega : m0 ≠ 0)
+  have hm1q : (m1 : Rat) ≠ 0 := by exact_mod_cast (by omega : m1 ≠ 0)
+  simp only [src2, CS2.voxel, CS2.coordinate, Affine2.inverse, Affine2.mk', rot2Inv, M2.mulVec, V2.sub,
+    V2.smul, shiftVec2, hox, hoy, hd0, hd1]
+  refine Prod.ext ?_ ?_
+  · have e : (-1 * (1 / 1 * (-0 * (csS.ox + ((v1 : Rat) + half) * (csS.h1 / (m1 : Rat)) - (k1 : Rat) * csS.h1) +
+        1 * (csS.oy + -1 * ((v0 : Rat) + half) * (csS.h0 / (m0 : Rat)) - -((k0 : Rat) * csS.h0))) - csS.oy) / csS.h0 : Rat)
+        = ((v0 : Rat) + half) / (m0 : Rat) + ((-k0 : Int) : Rat) := by push_cast; field_simp; ring
+    show (Rat.floor _) = _
+    rw [e, ratFloor_eq, Int.floor_add_intCast, ← ratFloor_eq, floor_half_div v0 m0 hv0 hm0]; ring
+  · have e : ((1 / 1 * (1 * (csS.ox + ((v1 : Rat) + half) * (csS.h1 / (m1 : Rat)) - (k1 : Rat) * csS.h1) +
+        0 * (csS.oy + -1 * ((v0 : Rat) + half) * (csS.h0 / (m0 : Rat)) - -((k0 : Rat) * csS.h0))) - csS.ox) / csS.h1 : Rat)
+        = ((v1 : Rat) + half) / (m1 : Rat) + ((-k1 : Int) : Rat) := by push_cast; field_simp; ring
+    show (Rat.floor _) = _
+    rw [e, ratFloor_eq, Int.floor_add_intCast, ← ratFloor_eq, floor_half_div v1 m1 hv1 hm1]; ring
+
+/-- 3-D quarter turn (+π/2 about the Cartesian x axis) expressed in PHYSICAL COORDINATES between a source system (n0,n1,n2;
+voxel sizes h0,h1,h2) and the destination system with shape (n2,n1,n0) and voxel sizes (h2,h1,h0), translation
+(ox' − ox, oy' + oz − n0·h0, oz' − oy): destination voxel (v0,v1,v2) shows source voxel (n0 − 1 − v2, v1, v0), i.e.
+`np.rot90(arr, 1, axes=(2, 0))`. -/
+theorem src_quarter_turn_3d_coord (rnd : Rounding) (csS csD : CS3) (h0 : csS.h0 ≠ 0) (h1 : csS.h1 ≠ 0) (h2 : csS.h2 ≠ 0)
+    (hd0 : csD.h0 = csS.h2) (hd1 : csD.h1 = csS.h1) (hd2 : csD.h2 = csS.h0) (v0 v1 v2 : Int) :
+    src3 .coord (Affine3.mk' ⟨csD.ox - csS.ox, csD.oy + csS.oz - (csS.n0 : Rat) * csS.h0, csD.oz - csS.oy⟩ 1
+        [⟨.a0, false, 0, 1⟩]) csS csD rnd v0 v1 v2 = ((csS.n0 : Int) - 1 - v2, v1, v0) := by
+  simp only [src3, CS3.voxel, CS3.coordinate, Affine3.inverse, Affine3.mk', rotationInv, rotationLoop, List.foldl_cons,
+    List.foldl_nil, Factor.inv, Factor.sf, elem, M3.mul, M3.one, M3.mulVec, V3.sub, V3.smul, Bool.false_eq_true, if_false,
+    hd0, hd1, hd2]
+  refine Prod.ext ?_ (Prod.ext ?_ ?_)
+  · convert floor_int_add_half ((csS.n0 : Int) - 1 - v2) using 2; unfold half; push_cast; field_simp; ring
+  · convert floor_int_add_half v1 using 2; unfold half; field_simp; ring
+  · convert floor_int_add_half v0 using 2; unfold half; field_simp; ring
+
+end anysystems
 
 end Darsia.C09
